@@ -28,7 +28,7 @@ IDX = "self.params.prices.index_token_price"
 
 
 def _s(cs, i):
-    return str(H.arg_at(cs, i))
+    return str(H.arg_at(cs, i)) if i < len(cs.args) else "<no-arg>"
 
 
 def _guard(f, bb, cond_re):
